@@ -65,7 +65,7 @@ func emitVer(g *hx.Gen, keyBlob []byte, pub *wire.Pub, notouch int, data []byte,
 }
 
 func gen(g *hx.Gen) {
-	n := g.Count(3000, 300000)
+	n := g.Count(3000, 40000)
 	r := g.R
 	// the complete SK flag table first: 256 flag bytes × {touch required, opt-out} × both sk kinds
 	for _, kind := range []string{"sk-ed25519", "sk-ecdsa"} {
